@@ -15,6 +15,9 @@ pub struct SatWorld;
 pub const K_CLAUSE: u8 = 0;
 pub const K_DECIDE: u8 = 1;
 pub const K_POP: u8 = 2;
+/// at the root state: decide every literal once (decide, read hash, pop) and compare the hashes of all these
+/// single-decision states with their residual formulas
+pub const K_SWEEP: u8 = 3;
 /// up to four more literals for the clause defined by the closest preceding K_CLAUSE
 pub const K_CLAUSE_EXT: u8 = 20;
 pub const MAXV: usize = 10;
@@ -207,13 +210,17 @@ impl World for SatWorld {
         let sparse = !chain && c.below(10) == 0;
         // one run in fourteen: a handful of clauses, one of them long (9-14 literals of mixed polarity), with few
         // enough literal occurrences for the hash clause of the property to apply
-        let longc = !chain && !sparse && c.below(14) == 0;
+        // one run in 3000: a huge formula (20 000 - 40 000 variables, 85 000 - 140 000 literal occurrences) whose
+        // single-decision states are all visited by one sweep
+        let huge = !chain && !sparse && c.below(3000) == 0;
+        let longc = !chain && !sparse && !huge && c.below(14) == 0;
         // one run in fourteen: 18-45 clauses that share 3-5 hub literals (watch lists with tens of entries) and
         // many decide/pop cycles on the hubs, so that watches migrate between long lists in every order
-        let hub = !chain && !sparse && !longc && c.below(14) == 0;
-        let nv = if longc { 9 + c.below(6) } else if hub { 20 + c.below(50) } else if sparse { 65 + c.below(140) } else if chain { 50 + c.below(if long_chain { 6000 } else { 600 }) } else if big { 11 + c.below(130) } else if wide { 5 + c.below(6) } else { 1 + c.below(6) };
+        let hub = !chain && !sparse && !longc && !huge && c.below(14) == 0;
+        let nv = if huge { 20_000 + c.below(20_000) } else if longc { 9 + c.below(6) } else if hub { 20 + c.below(50) } else if sparse { 65 + c.below(140) } else if chain { 50 + c.below(if long_chain { 6000 } else { 600 }) } else if big { 11 + c.below(130) } else if wide { 5 + c.below(6) } else { 1 + c.below(6) };
         cfg.insert("nv".into(), nv as i64);
-        let big = big || chain || sparse || longc || hub;
+        let big = big || chain || sparse || longc || hub || huge;
+        cfg.insert("huge".into(), huge as i64);
         let mut hub_vars: Vec<u64> = Vec::new();
         let sparse_vars: Vec<u64> = if sparse {
             let k = c.below(nv.min(64));
@@ -235,7 +242,19 @@ impl World for SatWorld {
                 v.push(Op { c: 0, k: if j == 0 { K_CLAUSE } else { K_CLAUSE_EXT }, a });
             }
         };
-        let mut ops = if longc {
+        let mut ops = if huge {
+            let mut v = Vec::new();
+            for _ in 0..(29_000 + c.below(18_000)) {
+                let mut a = [0i64; 4];
+                let sz = if o.below(8) == 0 { 2 } else { 3 };
+                for slot in a.iter_mut().take(sz) {
+                    let x = o.below(nv) as i64 + 1;
+                    *slot = if o.bool() { x } else { -x };
+                }
+                v.push(Op { c: 0, k: K_CLAUSE, a });
+            }
+            v
+        } else if longc {
             let mut v = Vec::new();
             let mut vars: Vec<u64> = (0..nv).collect();
             o.shuffle(&mut vars);
@@ -330,11 +349,14 @@ impl World for SatWorld {
             gen_cnf_ops(&mut c, &mut o, nv, if wide { 14 } else { 8 })
         };
         let ncallers = 1 + c.below(3);
-        // one small run in 300 is a marathon: a long-lived solver that sees 150 000 - 250 000 decide/pop calls
+        // one small run in 1000 is a marathon: a long-lived solver that sees 150 000 - 250 000 decide/pop calls
         // (about as many decisions as pops, so the stack stays shallow and most decisions are top-level ones)
-        let marathon = !big && c.below(300) == 0;
+        let marathon = !big && c.below(1000) == 0;
         let pop_w = if marathon { 50 } else { 15 + c.below(40) };
-        let len = if marathon { 150_000 + o.below(100_000) } else { 1 + o.below(if thorough { 120 } else { 50 }) + if hub { 60 } else { 0 } };
+        if huge {
+            ops.push(Op { c: 0, k: K_SWEEP, a: [0; 4] });
+        }
+        let len = if huge { 1 + o.below(8) } else if marathon { 150_000 + o.below(100_000) } else { 1 + o.below(if thorough { 120 } else { 50 }) + if hub { 60 } else { 0 } };
         for _ in 0..len {
             let caller = s.below(ncallers) as u8;
             if o.below(100) < pop_w {
@@ -348,7 +370,7 @@ impl World for SatWorld {
                 } else if chain && o.below(2) == 0 {
                     o.below(8)
                 } else {
-                    o.below(if big { 8192 } else { 12 })
+                    o.below(if huge { nv } else if big { 8192 } else { 12 })
                 };
                 ops.push(Op { c: caller, k: K_DECIDE, a: [dv as i64, o.below(2) as i64, 0, 0] });
             }
@@ -366,7 +388,8 @@ impl World for SatWorld {
     fn execute(&self, plan: &Plan, ctx: &mut Ctx) -> R {
         ctx.cur_prop = "C09";
         let big = plan.get_or("big", 0) != 0;
-        let clauses_in: Vec<Vec<(usize, bool)>> = clauses_of_plan(&plan.ops, if big { 8192 } else { MAXV });
+        let huge = plan.get_or("huge", 0) != 0;
+        let clauses_in: Vec<Vec<(usize, bool)>> = clauses_of_plan(&plan.ops, if huge { 65536 } else if big { 8192 } else { MAXV });
         let lits: Vec<Vec<Literal>> = clauses_in
             .iter()
             .map(|c| c.iter().map(|(v, p)| Literal::new(VarLabel::new(*v as u64), *p)).collect())
@@ -470,7 +493,7 @@ impl World for SatWorld {
                     } else if !entailed_before.contains(&(v, b)) && {
                         // ladders assign thousands of literals in one step: refute a sample of them
                         refutations += 1;
-                        refutations <= 24 || v % 97 == 0
+                        if huge { refutations <= 2 } else { refutations <= 24 || v % 97 == 0 }
                     } {
                         // entailment by refutation: CNF + decisions + (x_v = !b) must be unsatisfiable
                         let mut asm: Vec<(usize, bool)> = decisions.to_vec();
@@ -634,6 +657,92 @@ impl World for SatWorld {
                         }
                     }
                 }
+                K_SWEEP => {
+                    ctx.ops += 1;
+                    if stack.len() != 1 || nv == 0 {
+                        continue;
+                    }
+                    // occurrence lists over the normalised clauses
+                    let mut occ: Vec<[Vec<u32>; 2]> = (0..nv).map(|_| [Vec::new(), Vec::new()]).collect();
+                    for (ci, c) in norm.iter().enumerate() {
+                        for (v, p) in c.iter() {
+                            occ[*v][*p as usize].push(ci as u32);
+                        }
+                    }
+                    let root = read_model(&solver);
+                    let root_sat: Vec<bool> = norm.iter().map(|c| c.iter().any(|(v, p)| root[*v] == Some(*p))).collect();
+                    // residual key of a state that extends the root by `newly`: which further clauses are satisfied,
+                    // which literal occurrences of unsatisfied clauses are falsified
+                    let key_of = |newly: &[(usize, bool)]| -> u128 {
+                        let mut sat: Vec<u32> = newly.iter().flat_map(|(v, b)| occ[*v][*b as usize].iter().copied()).filter(|ci| !root_sat[*ci as usize]).collect();
+                        sat.sort_unstable();
+                        sat.dedup();
+                        let mut fals: Vec<(u32, usize)> =
+                            newly.iter().flat_map(|(v, b)| occ[*v][!*b as usize].iter().map(move |ci| (*ci, *v))).filter(|(ci, _)| !root_sat[*ci as usize] && sat.binary_search(ci).is_err()).collect();
+                        fals.sort_unstable();
+                        fals.dedup();
+                        let (mut a, mut b2) = (0x5EE9u64, 0xFA15u64);
+                        for ci in sat.iter() {
+                            a = mix(a, *ci as u64);
+                            b2 = mix(b2 ^ 1, *ci as u64);
+                        }
+                        for (ci, v) in fals.iter() {
+                            a = mix(a ^ 7, (*ci as u64) << 20 ^ *v as u64);
+                            b2 = mix(b2 ^ 9, (*ci as u64) << 20 ^ *v as u64);
+                        }
+                        (a as u128) << 64 | b2 as u128
+                    };
+                    let mut seen: BTreeMap<u128, (usize, bool, u128)> = BTreeMap::new();
+                    seen.insert(solver.cur_hash(), (usize::MAX, false, key_of(&[])));
+                    let mut visited = 0u64;
+                    for v in 0..nv {
+                        if root[v].is_some() {
+                            continue;
+                        }
+                        for b in [false, true] {
+                            if matches!(solver.decide(Literal::new(VarLabel::new(v as u64), b)), DecisionResult::UNSAT) {
+                                continue;
+                            }
+                            visited += 1;
+                            let newly: Vec<(usize, bool)> = solver.difference_iter().map(|l| (l.label().value_usize(), l.polarity())).collect();
+                            let (h, key) = (solver.cur_hash(), key_of(&newly));
+                            solver.pop();
+                            if let Some((v0, b0, key0)) = seen.get(&h).copied() {
+                                if key0 != key {
+                                    // confirm on the exact residual formulas before reporting
+                                    let exact = |s: &mut SATSolver, d: Option<(usize, bool)>| {
+                                        if let Some((dv, db)) = d {
+                                            let _ = s.decide(Literal::new(VarLabel::new(dv as u64), db));
+                                        }
+                                        let r = residual(&read_model(s));
+                                        if d.is_some() {
+                                            s.pop();
+                                        }
+                                        r
+                                    };
+                                    let r0 = exact(&mut solver, if v0 == usize::MAX { None } else { Some((v0, b0)) });
+                                    let r1 = exact(&mut solver, Some((v, b)));
+                                    ctx.check("C09", "sat-equal-hash-different-residual", r0 == r1, || {
+                                        format!(
+                                            "the state after the single decision x{v}={b} and the state after {} have the same hash {h} but different residual formulas ({} and {} clauses left; {} variables, {} literal occurrences)",
+                                            if v0 == usize::MAX { "no decision".to_string() } else { format!("the single decision x{v0}={b0}") },
+                                            r1.len(),
+                                            r0.len(),
+                                            nv,
+                                            n_lits_norm
+                                        )
+                                    })?;
+                                }
+                            } else {
+                                seen.insert(h, (v, b, key));
+                            }
+                        }
+                    }
+                    ctx.evals += visited;
+                    ctx.count("single-decision-states-swept", visited);
+                    ctx.ev(43, &[visited, seen.len() as u64]);
+                    ctx.check("C09", "sat-pop-restores-hash", solver.cur_hash() == stack[0].hash, || "after the sweep (decide/pop pairs only) the root hash changed".to_string())?;
+                }
                 K_POP => {
                     ctx.ops += 1;
                     if stack.len() <= 1 {
@@ -676,6 +785,7 @@ impl World for SatWorld {
         match op.k {
             K_CLAUSE | K_CLAUSE_EXT => format!("{} {:?}", if op.k == K_CLAUSE { "clause" } else { "  ...more literals" }, clause_of(op).iter().map(|(v, p)| format!("{}x{}", if *p { "" } else { "!" }, v)).collect::<Vec<_>>()),
             K_DECIDE => format!("c{}: decide(x{} = {})", op.c, op.a[0], op.a[1] & 1 == 1),
+            K_SWEEP => "sweep: decide / read hash / pop for every literal at the root".to_string(),
             _ => format!("c{}: pop", op.c),
         }
     }
